@@ -184,4 +184,84 @@ def runHist : Registry → List Op → List Outcome
     | .ok (k, c) => .made k c :: runHist r rest
     | .error p => .panic p :: runHist r rest
 
+/-! ## RestConf values in memory: clients that keep their configuration
+
+A constructor receives the RestConf BY VALUE (`typedCtor(*conf)`); the generated one stores a pointer to its copy
+(`conf: &conf`). A by-value copy of a RestConf copies the slice HEADER of `_middlewares`, not the array behind it, so
+whether two RestConf values are independent is a question about backing arrays. The heap holds those arrays at their
+full capacity; `append` (one element, as `Use` does) writes in place while there is room and otherwise moves to a new
+array of twice the size (Go's growth rule for small slices of pointer-sized elements: 0 → 1 → 2 → 4 → …). -/
+
+/-- backing arrays at full capacity (unused cells hold 0); array 0 is the empty array every nil slice points to -/
+abbrev Heap := List (List Mw)
+
+def Heap.init : Heap := [[]]
+
+/-- a RestConf as it lies in memory: the scalar fields and the slice header (array, length) of `_middlewares` -/
+structure MConf where
+  baseURL : String
+  timeout : Int
+  enableLogging : Bool
+  defaultHeaders : Headers
+  arr : Nat
+  len : Nat
+  deriving Repr, DecidableEq, Inhabited
+
+/-- `new(RestConf)` -/
+def MConf.zero : MConf := ⟨"", 0, false, none, 0, 0⟩
+
+/-- what the getters and BuildMiddleware read from a RestConf in memory -/
+def MConf.view (h : Heap) (c : MConf) : RestConf :=
+  ⟨c.baseURL, c.timeout, c.enableLogging, c.defaultHeaders, (h.getD c.arr []).take c.len⟩
+
+/-- `r._middlewares = append(r._middlewares, m)` -/
+def useM (h : Heap) (c : MConf) (m : Mw) : Heap × MConf :=
+  let a := h.getD c.arr []
+  if c.len < a.length then (h.set c.arr (a.set c.len m), { c with len := c.len + 1 })
+  else (h ++ [a.take c.len ++ m :: List.replicate (c.len - 1) 0], { c with arr := h.length, len := c.len + 1 })
+
+def Opt.applyM : Opt → Heap × MConf → Heap × MConf
+  | .baseURL u, (h, c) => (h, { c with baseURL := u })
+  | .timeout d, (h, c) => (h, { c with timeout := d })
+  | .enableLogging b, (h, c) => (h, { c with enableLogging := b })
+  | .defaultHeaders x, (h, c) => (h, { c with defaultHeaders := x })
+  | .use m, (h, c) => useM h c m
+
+/-- `NewWith(opts...)` in memory: a fresh zero value, every option in order -/
+def newWithM (h : Heap) (opts : List Opt) : Heap × MConf := opts.foldl (fun hc o => o.applyM hc) (h, MConf.zero)
+
+/-- steps of a process in which every interface type is registered (constructor tag = type):
+    `NewRest[T](opts…)` — the client keeps the RestConf it was built from —, a later `conf.With(o)` by the owner of
+    client `j` on the RestConf it keeps, and a later look at client `j`: the getters of its RestConf and one round trip
+    through `conf.BuildMiddleware()` built NOW -/
+inductive KOp where
+  | new (t : TypeId) (opts : List Opt)
+  | withOpt (j : Nat) (o : Opt)
+  | again (j : Nat)
+  deriving Repr, DecidableEq
+
+inductive KOut where
+  | made (t : TypeId) (c : RestConf)
+  | done
+  | seen (c : RestConf)
+  | noSuch
+  deriving Repr, DecidableEq
+
+/-- the clients made so far (constructor tag and the RestConf each keeps), on one heap -/
+def runClients : Heap → List (CtorId × MConf) → List KOp → List KOut
+  | _, _, [] => []
+  | h, cs, .new t opts :: r =>
+    let (h', c) := newWithM h opts
+    .made t (c.view h') :: runClients h' (cs ++ [(t, c)]) r
+  | h, cs, .withOpt j o :: r =>
+    match cs[j]? with
+    | none => .noSuch :: runClients h cs r
+    | some (t, c) =>
+      let (h', c') := o.applyM (h, c)
+      .done :: runClients h' (cs.set j (t, c')) r
+  | h, cs, .again j :: r =>
+    match cs[j]? with
+    | none => .noSuch :: runClients h cs r
+    | some (_, c) => .seen (c.view h) :: runClients h cs r
+
 end ShootVerif.Runtime
